@@ -20,7 +20,7 @@ using namespace wire;
 
 #define WIRE_CLASSES(X) \
     X(EthernetII, ETHERNET_II) X(Dot3, IEEE802_3) X(LLC, LLC) X(SNAP, SNAP) X(Dot1Q, DOT1Q) X(MPLS, MPLS) \
-    X(PPPoE, PPPOE) X(SLL, SLL) X(Loopback, LOOPBACK) X(PPI, PPI) \
+    X(PPPoE, PPPOE) X(SLL, SLL) X(Loopback, LOOPBACK) X(PPI, PPI) X(PKTAP, PKTAP) \
     X(IP, IP) X(IPv6, IPv6) X(IPSecAH, IPSEC_AH) X(IPSecESP, IPSEC_ESP) \
     X(TCP, TCP) X(UDP, UDP) X(ICMP, ICMP) X(ICMPv6, ICMPv6) \
     X(BootP, BOOTP) X(DHCP, DHCP) X(DHCPv6, DHCPv6) X(DNS, DNS) X(RTP, RTP) X(VXLAN, VXLAN) X(ARP, ARP) X(STP, STP) \
@@ -41,7 +41,6 @@ static const char* class_name(const PDU& p) {
         case PDU::EAPOL: return "EAPOL";
         case PDU::DOT11_MANAGEMENT: return "Dot11ManagementFrame";
         case PDU::DOT11_CONTROL_TA: return "Dot11ControlTA";
-        case PDU::PKTAP: return "PKTAP";
         case PDU::DOT1AD: return "Dot1AD";
         default: return "Unknown";
     }
